@@ -83,6 +83,7 @@ def write_evidence(rep, binfo, level_rule, trusted, assumptions):
             'axioms_reported': binfo['axioms_reported'],
             'build_errors': binfo['errors'],
             'forbidden_vernacular_found': binfo['forbidden'],
+            'coqchk': binfo.get('coqchk', 'not run in the quick tier'),
             'translator': binfo.get('translate', ''),
             'translator_cross_check': binfo.get('tablecheck', []),
             'build_errors_outside_cone': binfo.get('errors_outside_cone', []),
